@@ -922,6 +922,56 @@ def _trim_end_matches(ex, st, args, dest_ty, func, where):
     return VRef("val", val=VSeq(s.arr, s.off, simp(n), s.elem))
 
 
+def _trim_start_matches_str(ex, st, args, dest_ty, func, where):
+    """str::trim_start_matches(&str pattern): strips the pattern repeatedly from the front (concrete, non-empty pattern)"""
+    s = _str_of(ex, st, args[0])
+    p = _str_of(ex, st, args[1])
+    pl = simp(p.len)
+    if not z3.is_int_value(pl) or pl.as_long() == 0:
+        raise Unsupported("trim_start_matches with a symbolic or empty pattern")
+    m = pl.as_long()
+    pcs = [simp(p.at(I(j))) for j in range(m)]
+    cap = ex.str_cap
+    ex.oblig("model-bound", where, "string longer than the model capacity %d" % cap, z3.And(st.guard, s.len > cap))
+    # k = number of leading repetitions of the pattern
+    start = I(0)
+    going = z3.BoolVal(True)
+    for r in range(cap // m + 1):
+        here = z3.And(going, (r + 1) * m <= s.len, *[s.at(I(r * m + j)) == pcs[j] for j in range(m)])
+        start = z3.If(here, I((r + 1) * m), start)
+        going = here
+    start = simp(start)
+    return VRef("val", val=VSeq(s.arr, simp(s.off + start), simp(s.len - start), s.elem))
+
+
+def _str_as_bytes(ex, st, args, dest_ty, func, where):
+    """str::as_bytes on a string of symbolic chars: its UTF-8 encoding (1-3 bytes per char; code points < 0x10000)"""
+    s = _str_of(ex, st, args[0])
+    if s.elem == "u8":
+        return VRef("val", val=s)
+    cap = ex.str_cap
+    ex.oblig("model-bound", where, "string longer than the model capacity %d" % cap, z3.And(st.guard, s.len > cap))
+    B = z3.K(z3.IntSort(), I(0))
+    off = I(0)
+    allsmall = True
+    for i in range(cap):
+        c = s.at(I(i))
+        live = i < s.len
+        c_s = simp(c)
+        if z3.is_int_value(c_s) and c_s.as_long() < 0x80:
+            w = I(1)
+        else:
+            w = z3.If(c < 0x80, 1, z3.If(c < 0x800, 2, 3))
+        b0 = z3.If(c < 0x80, c, z3.If(c < 0x800, 0xC0 + c / 64, 0xE0 + c / 4096))
+        b1 = z3.If(c < 0x800, 0x80 + c % 64, 0x80 + (c / 64) % 64)
+        b2 = 0x80 + c % 64
+        B = z3.Store(B, off, z3.If(live, b0, z3.Select(B, off)))
+        B = z3.Store(B, off + 1, z3.If(z3.And(live, w >= 2), b1, z3.Select(B, off + 1)))
+        B = z3.Store(B, off + 2, z3.If(z3.And(live, w >= 3), b2, z3.Select(B, off + 2)))
+        off = simp(off + z3.If(live, w, 0))
+    return VRef("val", val=VSeq(B, I(0), off, "u8"))
+
+
 def _str_is_empty(ex, st, args, dest_ty, func, where):
     return VBool(simp(_str_of(ex, st, args[0]).len == 0))
 
@@ -1059,6 +1109,8 @@ def install_strings(ex, str_cap):
     A(r"^<std::slice::Iter<'_, (std::string::)?String> as Iterator>::next$", _strings_next, "slice::Iter<String>::next")
     A(r"^<(std::string::)?String as (std::ops::)?Deref>::deref$|^(std::string::)?String::as_str$|^<(std::string::)?String as AsRef<str>>::as_ref$", _string_deref, "<String as Deref>::deref / as_str")
     A(r"^core::str::<impl str>::trim_end_matches::<char>$", _trim_end_matches, "str::trim_end_matches(char)")
+    A(r"^core::str::<impl str>::trim_start_matches::<&str>$", _trim_start_matches_str, "str::trim_start_matches(&str)")
+    A(r"^core::str::<impl str>::as_bytes$|^str::<impl str>::as_bytes$", _str_as_bytes, "str::as_bytes (UTF-8 encoding of the chars)")
     A(r"^core::str::<impl str>::is_empty$", _str_is_empty, "str::is_empty")
     A(r"^core::str::<impl str>::contains::<char>$", _str_contains_char, "str::contains(char)")
     A(r"^(std::path::)?Path::to_string_lossy$|^std::ffi::OsStr::to_string_lossy$", _to_string_lossy, "Path/OsStr::to_string_lossy (valid UTF-8: identity)")
